@@ -264,9 +264,8 @@ def units(tier):
         for efron in (False, True):
             us.append(Unit('C20/K/Cox-kernels[tm=%s,s=%s,efron=%s]' % (tm, sv, efron), c06.u_cox,
                            dict(tm=tm, s=sv, efron=efron, sparse_pattern=[[1, 0], [0, 1], [1, 1], [1, 1]][:len(tm)]), wall_s=60))
-    for name, shape in itertools.product(['Quadratic', 'WeightedQuadratic', 'Logistic', 'Huber', 'QuadraticSVC'], [(3, 2), (2, 3)]):
-        us.append(Unit('C20/K/global-lipschitz-sparse[%s,shape=%s]' % (name, shape), u_global_lipschitz_sparse,
-                       dict(name=name, shape=shape), wall_s=60, timeout_ms=8000, patched=True))
+    # (u_global_lipschitz_sparse is not registered: the power method's iterates are nested radicals of a random start; see
+    #  DESIGN 10.6, seeded change C20-m3)
     for name, sp in itertools.product(['Quadratic', 'WeightedQuadratic', 'QuadraticMultiTask'], (False, True)):
         us.append(Unit('C20/K/reinitialise-on-a-larger-problem[%s,sparse=%s]' % (name, sp), u_reinitialise,
                        dict(name=name, sparse=sp), wall_s=60, timeout_ms=8000))
